@@ -304,6 +304,19 @@ func gobValueKind(w *World, t *tables, v ssa.Value, enc bool) string {
 			return "?"
 		}
 		return gobFuncKind(w, t, cal, enc)
+	case *ssa.Parameter:
+		// the parameter of a literal table row's setter: what the ranged call hands over
+		kind := ""
+		for _, ra := range rowSetterArgs(x) {
+			k := gobValueKind(w, t, ra.arg, enc)
+			if kind != "" && k != kind {
+				return "?"
+			}
+			kind = k
+		}
+		if kind != "" {
+			return kind
+		}
 	}
 	return "?"
 }
